@@ -46,10 +46,10 @@ func (avd EthAccountVerificationDecorator) AnteHandle(
 	simulate bool,
 	next sdk.AnteHandler,
 ) (newCtx sdk.Context, err error) {
-	if !ctx.IsCheckTx() {
-		return next(ctx, tx, simulate)
-	}
-
+	// NOTE: this check runs in DeliverTx as well. The state a transaction is delivered on can
+	// differ from the one it was checked on (earlier transactions of the same block, a
+	// proposer that skips CheckTx), and the later decorators only compare the balance with
+	// the value and with the fee separately, never with their sum.
 	for i, msg := range tx.GetMsgs() {
 		msgEthTx, ok := msg.(*evmtypes.MsgEthereumTx)
 		if !ok {
